@@ -139,7 +139,8 @@ def decorate(model, rng, what):
         return "\n".join(out) + "\n", {"decoration": what}
     if what == "layout":
         # any white space (blanks, tabs, line feeds, CR LF, form feeds) between the tokens of a right-hand side wherever the
-        # expression is inside parentheses; one blank between the tokens outside (Lex.lex_layout: the tokens are the same)
+        # expression is inside parentheses or cannot end (behind an operator, behind "="); one blank elsewhere (Lex.lex_layout: the
+        # tokens are the same)
         out = []
         for line in text.splitlines():
             if " = " in line and "#" not in line and not line.lstrip().startswith(("states", "parameters", "expressions")) and rng.random() < 0.7:
@@ -156,10 +157,12 @@ def decorate(model, rng, what):
                         if nxt is None:
                             break
                         d_after = depth - (1 if nxt == ")" else 0)
-                        parts.append(rng.choice([" ", "\t", "\n   ", " \r\n\t", "\f ", "  ", "\n\n  "]) if min(depth, d_after) > 0 else " ")
+                        # ... and outside parentheses wherever the expression cannot end: behind an operator (and behind "=")
+                        free = min(depth, d_after) > 0 or tk in ("+", "-", "*", "/", "**")
+                        parts.append(rng.choice([" ", "\t", "\n   ", " \r\n\t", "\f ", "  ", "\n\n  "]) if free else " ")
                         if nxt == ")":
                             depth -= 1
-                    line = lhs + " = " + "".join(parts)
+                    line = lhs + " =" + rng.choice([" ", " ", "\n    ", "\t", " \r\n  "]) + "".join(parts)
             out.append(line)
         return "\n".join(out) + "\n", {"decoration": what}
     raise ValueError(what)
